@@ -1,16 +1,73 @@
 from vlib.props import prop
 
+# counters are the ctx.count names of harness/c16_scatter.cxx; minima are about 35-50% of what one quick run observes
+_min_obs_quick = {
+    # "pairs" cases (1/3 of the cases)
+    "detector_pairs_checked": 150000, "symmetry_checks": 150000, "symmetry_checks_per_scatter_point": 5000000,
+    "cache_comparisons": 150000, "linearity_checks": 150000, "zero_activity_checks": 150000,
+    "cache_reads_seen": 10000000, "cache_writes_seen": 1000000,     # STIR's SCAT_CACHE call-outs: the cached path was really taken
+    "cfg_cache_on": 500, "cfg_cache_off": 150,
+    "cfg_cylindrical": 400, "cfg_blocks_on_cylindrical": 100, "cfg_downsampled_scanner": 100,
+    # "history" cases (2/3 of the cases)
+    "histories": 2000, "history_steps": 15000, "history_checkpoints": 8000,
+    "fresh_object_comparisons": 16000, "fresh_random_order_comparisons": 8000, "bins_compared_with_fresh_object": 1500000,
+    "steps_new_activity_image": 2000, "steps_new_attenuation_image": 1000, "steps_new_scatter_point_image": 1000,
+    "steps_new_threshold_and_scatter_point_image_again": 1000, "steps_new_template": 2000, "steps_new_energy_window": 2000,
+    "steps_cache_switch": 1000, "steps_same_value_again": 1000, "steps_rerun_without_change": 1000,
+    "states:energy-window-changed-after-process_data-with-same-template": 1000,
+    "process_data_again_without_set_up": 100, "set_up_twice_in_a_row": 1000,
+    "setter:set_exam_info_sptr": 2000, "setter:set_cache_enabled": 2000, "setter:downsample_scanner": 2000,
+}
+
 prop("C16",
      harness="c16_scatter",
      runs={
-         "quick": [dict(flavour="asan", cases=60), dict(flavour="rel", cases=600)],
-         "thorough": [dict(flavour="asan", cases=600), dict(flavour="rel", cases=12000)],
+         "quick": [dict(flavour="asan", cases=300), dict(flavour="rel", cases=6000)],
+         "thorough": [dict(flavour="asan", cases=1200), dict(flavour="rel", cases=36000)],
      },
-     min_nontrivial={"quick": 100, "thorough": 2000},
-     min_obs={"quick": {}, "thorough": {}},
-     rule="(draft)",
-     technique="runtime monitoring",
-     level_text="(draft)",
-     level_note="(draft)",
-     assumptions=[],
+     min_nontrivial={"quick": 3000, "thorough": 15000},
+     min_obs={"quick": _min_obs_quick,
+              "thorough": {k: 4 * v for k, v in _min_obs_quick.items()}},
+     rule=("case = (idx % 3 == 0) one 'pairs' configuration or (otherwise) one setter history, both on a generated world: "
+           "cylindrical or BlocksOnCylindrical scanner with 8..16 (thorough: ..26) detectors per ring and 2..3 (..4) rings, optionally "
+           "obtained from a larger one through downsample_scanner(); span-1 non-arc-corrected template with random maximum ring "
+           "difference and tangential range (30%: all detector pairs); energy resolution 8..35% at 511 keV or another reference "
+           "energy, window [300..500, 520..750] keV; activity / attenuation / scatter-point images on independent grids of 2..4 planes "
+           "x 3..5 (..8) voxels with random content and zeros (the scatter-point image is the attenuation image in 35%); attenuation "
+           "threshold from {0, .004, .01, .02, .04, .07, .1}; cache on (75%) or off.  pairs: every bin of the template -> both "
+           "detector orders through actual_scatter_estimate and through simulate_for_one_scatter_point per scatter point, stored "
+           "process_data value == per-pair function, values finite and >= 0, a fresh object with the other cache setting gives "
+           "bit-identical output, est(a*x+b*z) against a*est(x)+b*est(z) (b negative in 30%) within the computed float32 band, "
+           "est(0) == 0.  history: one object configured in random setter order, then 4..20 (..24) steps out of {new activity image, "
+           "new attenuation image (+ scatter-point image), new scatter-point image, new threshold followed by the scatter-point image "
+           "again, new template, new energy window through set_exam_info / set_exam_info_sptr, cache switch through set_use_cache / "
+           "set_cache_enabled, a setter called again with its current value, nothing}; at random check-points and at the end: "
+           "set_up (15%: twice; after 'nothing': sometimes none) + process_data, output compared bit-wise with a fresh object "
+           "configured with the final values in canonical setter order and with a second fresh object configured in a random order.  "
+           "Threshold and random-placement flag always precede the scatter-point image, the attenuation image precedes it too (it "
+           "discards it).  non-trivial = the output of the (last) configuration has a positive bin; distinct = distinct case descriptor"),
+     technique=("runtime monitoring: a harness subclass of SingleScatterSimulation exposes the per-detector-pair functions; inverse / "
+                "algebraic relations (A<->B exchange, linearity, zero) and STIR-against-STIR replay oracles (cache on vs off, object "
+                "with a setter history vs freshly configured objects) on generated scanners and images, under ASan/UBSan/asserts and "
+                "in the release build; STIR's SCAT_CACHE call-outs are counted to prove that the cached path ran"),
+     level_text=("thousands of generated scanner x template x image x energy configurations: for every detector pair of the (down-"
+                 "sampled) template the estimate is computed in both detector orders, summed and per scatter point, and must agree "
+                 "within 8(n+2)2^-23 of the (non-negative) estimate; the stored sinogram equals the per-pair function, is finite and "
+                 ">= 0; cache enabled == cache disabled bit for bit; linear in the activity image within the computed band; exactly 0 "
+                 "for zero activity.  Thousands of random setter / set_up / process_data histories (about 12 steps, 6 check-points "
+                 "each) are compared bit for bit with two freshly configured objects (canonical and random setter order).  Counters "
+                 "prove that every kind of step, both cache settings, all three scanner kinds, re-runs without set_up, repeated "
+                 "set_up and the 'energy window changed after a process_data' state occurred.  Detection validated on planted "
+                 "mutations (see DESIGN.md 9.4)"),
+     level_note=("trusted: determinism of the float32 evaluation (bit-wise comparisons are between two executions of the same code "
+                 "on the same values), the float32 band of the symmetry and linearity clauses.  An error common to both detector "
+                 "orders / to the cached and uncached path / to the history and the fresh object (a wrong physical formula) is "
+                 "invisible.  set_attenuation_threshold and set_randomly_place_scatter_points are not among the changes the statement "
+                 "lists; they are always called before the scatter-point image is given (afterwards the library ignores them until that "
+                 "image is set again), and randomly placed scatter points (time-seeded) are never used.  The scatter-point image is "
+                 "always supplied (the zoom performed inside set_up when it is missing, and downsample_scanner_bool, are documented as "
+                 "'set_up twice not supported').  Multi-threaded evaluation is C18's subject"),
+     assumptions=["the image extent stays inside 0.78 of the smallest ring radius and all images of a case share (nz-1)*vz, as "
+                  "ScatterSimulation::set_up demands (issue #495 check)",
+                  "scanners have >= 2 rings (set_up asserts a non-degenerate axial extent)"],
      )
